@@ -148,8 +148,9 @@ pub fn run_all(ws: &Ws, a: &Analysis, obs: &mut dyn Obs, cur: &mut Cursor, plan:
     cur.kind = "diagnostics";
     let diags = a.diagnostics();
     obs.diagnostics(ws, &diags);
+    // by path, not by id: ids depend on the order in which a host met the files
     let mut files: Vec<FileId> = diags.keys().copied().collect();
-    files.sort();
+    files.sort_by_key(|f| ws.fs.path_of(*f));
     for f in files {
         cur.file = ws.fs.path_of(f);
         let Some(text) = ws.text_of(f).map(|s| s.to_string()) else { continue };
